@@ -24,8 +24,10 @@ inline std::vector<Elem> messages()
     return v;
 }
 
-static const uint64_t TIMETAGS[] = {0ull, 1ull, 0xffffffffull, 0x100000000ull, 0x8000000000000000ull, 0xffffffffffffffffull, 0x0102030405060708ull};
-static const int N_TIMETAGS = 7;
+// the last five: bytes that mean something elsewhere in a message (',' '/' '#', the bundle marker itself) in the seconds and fraction words
+static const uint64_t TIMETAGS[] = {0ull, 1ull, 0xffffffffull, 0x100000000ull, 0x8000000000000000ull, 0xffffffffffffffffull, 0x0102030405060708ull,
+                                    0x2c00000000000000ull, 0x0000002c80000000ull, 0x002c00002f000023ull, 0x2f2f2f2f2c2c2c2cull, 0x2362756e646c6500ull};
+static const int N_TIMETAGS = 12;
 
 // all sequences of length lo..hi over n symbols, as index vectors
 inline void sequences(size_t n, int lo, int hi, std::vector<std::vector<int>> &out)
